@@ -658,4 +658,5 @@ def run(chk, facts, tier, only=None):
         chk.run_rule(rid, desc, f)
     if only is None:
         import c19
+        chk.include(c19, "C19.R9", "C17.R6", facts)     # javascript::ident keeps distinct type names distinct
         chk.include(c19, "C19.R3", "C17.R5", facts)     # method names and labels printed as '…' literals are escaped (no raw quote, backslash or line terminator)
